@@ -118,6 +118,22 @@ impl<'a> Recorder<'a> {
                     for f in &fails {
                         *self.res.excluded_known.entry(f.sig.clone()).or_insert(0) += 1;
                     }
+                    // maintenance aid (never set by a registered command): NV_REFRESH_KNOWN=<dir>
+                    // saves one fresh replay per listed signature met, for `known:` entries whose
+                    // committed replay stopped reproducing after a generator change
+                    if let Some(dir) = std::env::var_os("NV_REFRESH_KNOWN") {
+                        let args: Vec<String> = std::env::args().collect();
+                        for f in &fails {
+                            let slug: String = f.sig.chars().map(|c| if c.is_ascii_alphanumeric() { c } else { '-' }).collect();
+                            let path = std::path::Path::new(&dir).join(format!("{}-{}.json", args.get(2).cloned().unwrap_or_default(), &slug[..slug.len().min(110)]));
+                            if !path.exists() {
+                                let mut cj = case();
+                                apply_patch(&mut cj, &f.patch.clone());
+                                let v = serde_json::json!({"property": args.get(2), "sub": args.get(3), "seed": 0, "tier": "quick", "case": cj, "fails": [f]});
+                                let _ = std::fs::write(&path, serde_json::to_vec_pretty(&v).unwrap_or_default());
+                            }
+                        }
+                    }
                     // everything that failed is a listed known finding: count the rest of the case
                     match take_stashed_pass() {
                         Some(p) => self.record(case, Ok(p)),
